@@ -630,7 +630,8 @@ class OPENQASMVisitor(Visitor):
             # measure qubits to clbits
             qubit_index = int(qubit_childs[1])
             class_index = int(class_childs[1])
-            measurements[qubit_index] = (class_reg_name, class_index)
+            del qubit_index  # index within its register, not the circuit
+            measurements[location[0]] = (class_reg_name, class_index)
             mph = MeasurementPlaceholder(cregs, measurements)
 
         else:
